@@ -9,7 +9,11 @@
 * handlers are tagged with (type name, serial); builtin handlers are recognised by their effect
   on a crafted target (the same effect the builtin function has when applied directly).
 """
+import abc
+import collections
+import gc
 import operator
+import types
 from collections import OrderedDict
 
 import glom
@@ -22,19 +26,35 @@ from glom.core import (TargetRegistry, UnregisteredTarget, PathAccessError, Path
 import vlib
 
 ALL_OPS = ['get', 'iterate', 'keys', 'assign', 'delete']
+X_OPS = ['cauto', 'cplain']      # operations added with register_op by a behaviour: with / without autodiscovery
 BUILTIN_REAL = {'object': object, 'dict': dict, 'list': list, 'tuple': tuple, 'OrderedDict': OrderedDict,
-                '_AbstractIterable': _AbstractIterable, '_ObjStyleKeys': _ObjStyleKeys}
+                '_AbstractIterable': _AbstractIterable, '_ObjStyleKeys': _ObjStyleKeys, 'generator': types.GeneratorType}
 DUCKS = ('_AbstractIterable', '_ObjStyleKeys')
+
+
+def custom_default(target):
+    """what the autodiscovery function of the custom operation 'cauto' finds for every type but tuples"""
+    return 'custom-default'
+
+
+def cauto_discover(type_obj):
+    return False if issubclass(type_obj, tuple) else custom_default
+
+
 # builtin handler functions <-> the names the specification uses
 BUILTIN_FN = {'getattr': getattr, 'getitem': operator.getitem, 'seqitem': gcore._get_sequence_item,
               'iter': iter, 'dictkeys': dict.keys, 'odkeys': OrderedDict.keys,
               'objkeys': _ObjStyleKeys.get_keys, 'setattr': setattr, 'setitem': operator.setitem,
               'setseq': gmut._set_sequence_item, 'delattr': delattr, 'delitem': operator.delitem,
-              'delseq': gmut._del_sequence_item}
+              'delseq': gmut._del_sequence_item, 'customdefault': custom_default}
 BUILTIN_BY_OP = {'get': ['getattr', 'getitem', 'seqitem'], 'iterate': ['iter'], 'keys': ['dictkeys', 'odkeys', 'objkeys'],
-                 'assign': ['setattr', 'setitem', 'setseq'], 'delete': ['delattr', 'delitem', 'delseq']}
+                 'assign': ['setattr', 'setitem', 'setseq'], 'delete': ['delattr', 'delitem', 'delseq'],
+                 'cauto': ['customdefault'], 'cplain': []}
+PROBED_OPS = ('keys', 'cauto', 'cplain')     # observed through a custom specifier that returns the handler itself
 FALSE_H = {'o': 'False', 'n': 0}
 CALLS = []        # (type name, serial, op) of every user handler that ran
+ON_CALL = []      # at most one callable, run (once) from inside the next user handler that is called (re-entrancy)
+PULLS = []        # one entry per item pulled from a generator target
 
 
 def fn_tag(h):
@@ -50,35 +70,74 @@ def fn_tag(h):
     raise vlib.MachineryError('handler %r is not one the C13 universe knows' % (h,))
 
 
+def _called(tname, n, op):
+    CALLS.append((tname, n, op))
+    if ON_CALL:
+        ON_CALL.pop()()          # e.g. a registration made while the handler runs
+
+
+_RESULT = {'get': lambda: 'U', 'iterate': lambda: iter(()), 'keys': lambda: ['0'], 'assign': lambda: None,
+           'delete': lambda: None, 'cauto': lambda: 'U', 'cplain': lambda: 'U'}
+
+
+class FalsyHandler:
+    """a handler object that is callable but falsy and claims to be equal to everything: a registry must treat
+    handlers by identity (`is False` means 'not supported', nothing else does)"""
+    def __init__(self, op, tname, n):
+        self.op, self.c13_tag = op, (tname, n)
+
+    def __bool__(self):
+        return False
+
+    def __eq__(self, other):
+        return True
+
+    def __ne__(self, other):
+        return False
+
+    def __hash__(self):
+        return 7
+
+    def __call__(self, *args):
+        _called(self.c13_tag[0], self.c13_tag[1], self.op)
+        return _RESULT[self.op]()
+
+
 def mk_handler(op, tname, n):
-    tag = (tname, n)
-    if op == 'get':
-        def h(target, key):
-            CALLS.append((tname, n, 'get'))
-            return 'U'
-    elif op == 'iterate':
-        def h(target):
-            CALLS.append((tname, n, 'iterate'))
-            return iter(())
-    elif op == 'keys':
-        def h(target):
-            CALLS.append((tname, n, 'keys'))
-            return ['0']
-    elif op == 'assign':
-        def h(target, key, val):
-            CALLS.append((tname, n, 'assign'))
-    else:
-        def h(target, key):
-            CALLS.append((tname, n, 'delete'))
-    h.c13_tag = tag
+    """a handler tagged (type name, serial): plain functions for odd serials, falsy callable objects for even ones"""
+    if n % 2 == 0:
+        return FalsyHandler(op, tname, n)
+
+    def h(*args):
+        _called(tname, n, op)
+        return _RESULT[op]()
+    h.c13_tag = (tname, n)
     return h
 
 
-class KeysProbe:
-    """custom specifier (documented extension route): which 'keys' handler does the registry in
-    scope hand out for the target"""
+class Probe:
+    """custom specifier (documented extension route): which handler does the registry in scope hand out for the
+    target and this operation ('keys' and the operations added with register_op have no other public consumer
+    that shows the handler)"""
+    def __init__(self, op):
+        self.op = op
+
     def glomit(self, target, scope):
-        return scope[TargetRegistry].get_handler('keys', target)
+        return scope[TargetRegistry].get_handler(self.op, target)
+
+
+def _falsy(self):
+    return False
+
+
+def _gen_target():
+    PULLS.append(1)
+    yield 'EL'
+
+
+class _QuackMeta(type):
+    def __instancecheck__(cls, obj):
+        return hasattr(obj, 'quack')
 
 
 def _iter_method(self):
@@ -86,7 +145,12 @@ def _iter_method(self):
 
 
 class Universe:
-    """real classes for a class table {name: {bases, dict, iter, kind}}"""
+    """real classes for a class table {name: {bases, dict, iter, kind, [special, virt, quack, abstract, eph]}}
+    special: 'abc' (abc.ABCMeta class other classes are registered with: virt), 'instancecheck' (duck type by
+    metaclass __instancecheck__: objects with an attribute `quack`), 'namedtuple', 'generator' (the builtin type);
+    eph: the class object is thrown away and rebuilt for every instance (types created and destroyed between
+    operations: addresses get reused).  Instances of the user classes are falsy (__bool__ returns False) although
+    they hold data."""
 
     def __init__(self, classes):
         self.classes = classes
@@ -95,28 +159,59 @@ class Universe:
         while todo:
             progress = False
             for n in list(todo):
-                c = classes[n]
-                if all(b in self.real for b in c['bases']):
-                    ns = {}
-                    if not c['dict']:
-                        ns['__slots__'] = ()
-                    if c['iter']:
-                        ns['__iter__'] = _iter_method
-                    if list(c['bases']) == ['object']:
-                        ns['0'] = 'CATTR'
-                    self.real[n] = type(n, tuple(self.real[b] for b in c['bases']), ns)   # may raise TypeError
+                if all(b in self.real for b in classes[n]['bases']):
+                    self.real[n] = self._build(n)   # may raise TypeError
                     todo.remove(n)
                     progress = True
             if not progress:
                 raise vlib.MachineryError('class table has a cycle / unknown base: %s' % todo)
-        self.concrete = [n for n in self.real if n not in DUCKS]
+        for n, c in classes.items():
+            for v in c.get('virt', ()):
+                self.real[v].register(self.real[n])
+        self.abstract = [n for n, c in classes.items() if c.get('abstract')]
+        self.concrete = [n for n in self.real if n not in DUCKS and n not in self.abstract]
         self.types = list(self.real)
         self.name = {cls: n for n, cls in self.real.items()}
         self._sig = {}
 
+    def _build(self, n):
+        c = self.classes[n]
+        bases = tuple(self.real[b] for b in c['bases'])
+        sp = c.get('special')
+        if sp == 'namedtuple':
+            return collections.namedtuple(n, ['f0'])
+        ns = {'__bool__': _falsy}
+        if not c['dict']:
+            ns['__slots__'] = ()
+        if c['iter']:
+            ns['__iter__'] = _iter_method
+        if list(c['bases']) == ['object']:
+            ns['0'] = 'CATTR'
+        if c.get('quack'):
+            ns['quack'] = True
+        meta = abc.ABCMeta if sp == 'abc' else _QuackMeta if sp == 'instancecheck' else type
+        return meta(n, bases, ns)
+
     # -- instances -----------------------------------------------------------------------
     def make(self, tname):
+        c = self.classes.get(tname, {})
+        if c.get('eph'):
+            # a new class object every time; the previous one becomes garbage as soon as no registry memo holds it
+            old = self.real[tname]
+            self.name.pop(old, None)
+            cls = self.real[tname] = self._build(tname)
+            for v in c.get('virt', ()):
+                self.real[v].register(cls)
+            self.name[cls] = tname
+            del old
+            self._rebuilt = getattr(self, '_rebuilt', 0) + 1
+            if self._rebuilt % 25 == 0:
+                gc.collect()     # class objects sit in reference cycles: only the collector frees them (and their ids)
         cls = self.real[tname]
+        if tname == 'generator':
+            return _gen_target()
+        if c.get('special') == 'namedtuple':
+            return cls('IDX')
         if issubclass(cls, OrderedDict):
             obj = cls([('0', 'ITEM')])
         elif issubclass(cls, dict):
@@ -155,14 +250,16 @@ class Universe:
             dreg = _DEFAULT_SCOPE[TargetRegistry]
             autof = {'get': reg._op_auto_map['get'], 'iterate': reg._op_auto_map['iterate'],
                      'assign': dreg._op_auto_map['assign'], 'delete': dreg._op_auto_map['delete'],
-                     'keys': lambda t: False}
-            return {op: {t: fn_tag(autof[op](self.real[t]))['o'] for t in self.types} for op in ALL_OPS}
+                     'keys': lambda t: False, 'cauto': cauto_discover, 'cplain': lambda t: False}
+            return {op: {t: fn_tag(autof[op](self.real[t]))['o'] for t in self.types} for op in ALL_OPS + X_OPS}
         except Exception:
             UNOBSERVABLE['autodiscovery functions'] = UNOBSERVABLE.get('autodiscovery functions', 0) + 1
         duck = {'get': 'getattr', 'iterate': 'False', 'keys': 'False', 'assign': 'setattr', 'delete': 'delattr'}
-        auto = {op: {} for op in ALL_OPS}
+        auto = {op: {} for op in ALL_OPS + X_OPS}
         for t in self.types:
-            if t in DUCKS:
+            auto['cauto'][t] = fn_tag(cauto_discover(self.real[t]))['o']     # the harness's own functions
+            auto['cplain'][t] = 'False'
+            if t in DUCKS or t in self.abstract:
                 for op in ALL_OPS:
                     auto[op][t] = duck[op]
                 continue
@@ -197,7 +294,7 @@ class Universe:
             s = ('user', h['o'], h['n'])
         elif h['o'] == 'False':
             s = ('unreg',)
-        elif op == 'keys':
+        elif op in PROBED_OPS:
             s = ('h', h['o'])
         else:
             f = BUILTIN_FN[h['o']]
@@ -300,6 +397,8 @@ class Env:
     def __init__(self, universe, restore=True):
         self.u = universe
         self.g = {}
+        self.specs = {}
+        self.pulled = False
         if restore:
             restore_default_registry()
 
@@ -325,12 +424,27 @@ class Env:
             else:
                 self.g[r].register(self.u.real[tname], **kw)
 
+    def register_op(self, r, op):
+        """extension route: add an operation to the registry of a Glommer, with / without autodiscovery"""
+        reg = self.g[r].scope[TargetRegistry]
+        if op == 'cauto':
+            reg.register_op('cauto', cauto_discover)
+        else:
+            reg.register_op(op)
+
+    def _spec(self, op):
+        """one spec object per operation and behaviour, evaluated again and again on different targets"""
+        if op not in self.specs:
+            self.specs[op] = (Path('0') if op == 'get' else [T] if op == 'iterate' else Assign('0', 'NEW') if op == 'assign'
+                              else Delete('0') if op == 'delete' else Probe(op))
+        return self.specs[op]
+
     def observe(self, r, op, tname):
         """one public-API call that needs the `op` handler for an instance of tname -> signature"""
         obj = self.u.make(tname)
         del CALLS[:]
-        spec = {'get': lambda: Path('0'), 'iterate': lambda: [T], 'keys': KeysProbe,
-                'assign': lambda: Assign('0', 'NEW'), 'delete': lambda: Delete('0')}[op]()
+        del PULLS[:]
+        spec = self._spec(op)
         run = glom.glom if r == 'default' else self.g[r].glom
         try:
             res = run(obj, spec)
@@ -343,13 +457,17 @@ class Env:
                 raise
             sig = ('exc', 'iterfail')
         else:
-            if op == 'keys':
+            if op in PROBED_OPS:
                 t = fn_tag(res)
                 sig = ('user', t['o'], t['n']) if t['n'] else ('h', t['o'])
-            elif op in ('get', 'iterate'):
+            elif op == 'get':
                 sig = ('ok', res)
+            elif op == 'iterate':
+                sig = ('ok', list(res))
+                res.append('mutated by the caller')       # the returned list belongs to the caller
             else:
                 sig = ('ok', self.u.state(obj))
+        self.pulled = bool(PULLS) and op not in ('iterate',)     # a target consumed by a lookup that does not iterate
         if CALLS:
             if len(CALLS) != 1 or CALLS[0][2] != op:
                 return ('calls',) + tuple(CALLS)
@@ -386,7 +504,7 @@ class Env:
         part('map', lambda reg: {op: [{'t': name[k], 'h': fn_tag(h)} for k, h in reg._op_type_map.get(op, {}).items()]
                                  for op in ops})
         part('tree', lambda reg: {op: ptree(reg._op_type_tree.get(op, {})) for op in ops})
-        part('cache', lambda reg: [{'t': name[k[0]], 'op': k[1], 'h': fn_tag(h)} for k, h in reg._type_cache.items()
+        part('cache', lambda reg: [{'t': name.get(k[0]) or k[0].__name__, 'op': k[1], 'h': fn_tag(h)} for k, h in reg._type_cache.items()
                                    if k[1] in ops])
         return out
 
